@@ -274,6 +274,59 @@ func (g *docGen) mutate(in []byte) []byte {
 	return out
 }
 
+// tokenSpans splits a document into its tokens (strings with their quotes, punctuation, runs of other
+// non-blank bytes: numbers and literals); white space is not a token.
+func tokenSpans(in []byte) (spans [][2]int) {
+	for i := 0; i < len(in); {
+		switch c := in[i]; {
+		case c == ' ' || c == '\n' || c == '\t' || c == '\r':
+			i++
+		case c == '"':
+			j := i + 1
+			for j < len(in) && in[j] != '"' {
+				if in[j] == '\\' {
+					j++
+				}
+				j++
+			}
+			if j < len(in) {
+				j++
+			} else {
+				j = len(in)
+			}
+			spans = append(spans, [2]int{i, j})
+			i = j
+		case strings.IndexByte("[]{},:", c) >= 0:
+			spans = append(spans, [2]int{i, i + 1})
+			i++
+		default:
+			j := i
+			for j < len(in) && strings.IndexByte("[]{},:\" \n\t\r", in[j]) < 0 {
+				j++
+			}
+			spans = append(spans, [2]int{i, j})
+			i = j
+		}
+	}
+	return
+}
+
+// tokenMutations: the "almost valid" neighbours of a valid document at TOKEN level — every single token
+// deleted, every single token written twice (a missing value, key, colon, comma or bracket anywhere in the
+// nesting; C06: faults that need one more member or element AFTER the defect to show).
+func tokenMutations(in []byte, maxTokens int, f func([]byte)) {
+	sp := tokenSpans(in)
+	if len(sp) == 0 || len(sp) > maxTokens {
+		return
+	}
+	for _, s := range sp {
+		del := append(append([]byte{}, in[:s[0]]...), in[s[1]:]...)
+		f(del)
+		dup := append(append(append([]byte{}, in[:s[1]]...), in[s[0]:s[1]]...), in[s[1]:]...)
+		f(dup)
+	}
+}
+
 // numberFamily enumerates number literal shapes (C02): digit counts on both sides of the point,
 // leading fraction zeros, exponent forms, boundary values.
 func numberFamily(full bool, f func([]byte)) {
